@@ -25,6 +25,7 @@ type PropConfig struct {
 	Assumptions []string `json:"assumptions"` // reported in evidence
 	Bounded     []string `json:"bounded"`     // labels of bounded stand-ins (reported, never counted as proved)
 	Frames      []FrameCheck `json:"frames"`  // program-wide syntactic frame obligations
+	Slow        []string `json:"slow_functions"` // functions whose obligations get 5x the solver budget (baseline and check alike)
 }
 
 // FrameCheck: only the listed functions may contain a store to the given field.
@@ -189,7 +190,11 @@ func cmdCheck(args []string) {
 			defer wg.Done()
 			defer func() { <-sem }()
 			t1 := time.Now()
-			vc := P.verify(P.funcs[j.key], timeout, 4, filepath.Join(scratchDir, "vc-keep-"+*prop), false, skip)
+			to := timeout
+			if matchPatterns(j.key, cfg.Slow) {
+				to = 5 * timeout
+			}
+			vc := P.verify(P.funcs[j.key], to, 4, filepath.Join(scratchDir, "vc-keep-"+*prop), false, skip)
 			results[i] = &fnResult{key: j.key, vc: vc, mode: j.mode, err: vc.err, wall: time.Since(t1)}
 		}(i, j)
 	}
